@@ -4,7 +4,7 @@ from __future__ import annotations
 import ast
 
 from ..flow import enumerate_paths, iter_stmts
-from ..peval import Evaluator, Model, Unsupported, RaisedInModel
+from ..peval import Evaluator, Model, Unsupported, RaisedInModel, ProgramRaised
 from ..source import norm, const_value, walk_no_nested, AnalysisError
 from .common import (is_name, params, single_return, returns_of, stores_in, flatten_targets, root_name, attr_chain,
                      body_wo_doc, conj_terms, alias_env, subst)
@@ -722,6 +722,9 @@ def check_eq_quantifier(run, tree):
             continue
         except RaisedInModel as e:
             run.violated(c, fi.where(e.node), "raises instead of returning %s" % want, label)
+            continue
+        except (ProgramRaised, KeyError) as e:
+            run.violated(c, fi.where(), "raises %s instead of returning %s" % (e, want), label)
             continue
         except Unsupported as e:
             run.unresolved(c, fi.where(), "cannot evaluate __eq__ on the abstract case: %s" % e)
